@@ -27,5 +27,6 @@ def main (args : List String) : IO UInt32 := do
   | ["sd"] => loop stdin stdout sdLine; return 0
   | ["xyz-read"] => loop stdin stdout xyzReadLine; return 0
   | ["xyz-write"] => loop stdin stdout xyzWriteLine; return 0
+  | ["history"] => loop stdin stdout historyLine; return 0
   | ["atoms-oracle"] => loop stdin stdout AtomsOracle.check; return 0
   | _ => IO.eprintln "usage: optrs-model <stream>"; return 2
